@@ -2585,7 +2585,10 @@ func (s *swamp) DeleteTreasure(key string, shadowDelete bool) error {
 
 	// delete the treasure from the beaconKey
 	// delete the treasure from the swamp and from the chroniclerInterface too
-	s.deleteHandler(key, shadowDelete)
+	if s.deleteHandler(key, shadowDelete) == nil {
+		// a concurrent request removed the treasure between the existence check and the delete
+		return errors.New(ErrorTreasureDoesNotExists)
+	}
 
 	// destroy the swamp if there is no treasure in it
 	if s.beaconKey.Count() == 0 {
@@ -2754,12 +2757,13 @@ func (s *swamp) CloneAndDeleteTreasuresByKeys(keys []string) ([]treasure.Treasur
 			// Release the treasure guard
 			treasureObj.ReleaseTreasureGuard(lockerID)
 
-			// Add cloned treasure to result
-			result = append(result, clonedTreasure)
-
 			// Delete the treasure from the swamp (permanent deletion, not shadow delete)
-			// This is similar to CloneAndDeleteExpiredTreasures where we always do real deletion
-			s.deleteHandler(key, false)
+			// This is similar to CloneAndDeleteExpiredTreasures where we always do real deletion.
+			// The clone is handed out only if this call is the one that removed the treasure:
+			// a concurrent shift of the same key must not receive the record a second time.
+			if s.deleteHandler(key, false) != nil {
+				result = append(result, clonedTreasure)
+			}
 		}
 		// Missing keys are silently ignored (as per specification)
 	}
@@ -2896,6 +2900,13 @@ func (s *swamp) deleteHandler(key string, shadowDelete bool) (deletedTreasure tr
 
 	guardID := treasureObj.StartTreasureGuard(true, guard.BodyAuthID)
 	defer treasureObj.ReleaseTreasureGuard(guardID)
+
+	// Another request may have removed this very treasure while we were waiting for its guard
+	// (two concurrent deletes / shifts of one key). Only the caller that still finds it in the
+	// swamp deletes it; the other one is told that there was nothing to delete.
+	if s.beaconKey.Get(key) != treasureObj {
+		return nil
+	}
 
 	// Még változtatás előtt lemásoljuk a Treasure-t, hogy egy clone-t készíthessünk róla, hogy a törölt treasure-t minden
 	// adatával együtt vissza tudjuk adni.
